@@ -24,6 +24,19 @@ def generate(rng, tier):
     for s in streams:
         g["decode"] += ["DEC " + s, "DIS " + s, "DVB " + s, "TR 1 0 " + s]
         g["render"].append("DREN 0 0 24 24 " + s)
+    # Bytes called while a run of drawing operations is pending, then more drawing: the bytes handed out stay as they were
+    # (the harness compares every returned slice with a copy taken at the time, at the end of the history)
+    g["bytes-mid-path"] = []
+    for _ in range(n * 3):
+        t = ["R"] + G.rviewbox(rng) + [G.rpalette(rng)] + ["SP", "0", G.fl(rng), G.fl(rng)]
+        v = rng.choice(list("LlTtQq"))
+        for _ in range(rng.range(1, 5)):
+            t += G.draw_op(rng, v)
+        t += ["B"]
+        for _ in range(rng.range(1, 5)):
+            t += G.draw_op(rng, v)
+        t += ["B", "Z", "B"]
+        g["bytes-mid-path"].append("ENC " + " ".join(t))
     for _ in range(n):
         # zero-value Encoders with very short outputs, and reset ones
         g["encode"].append("ENC " + " ".join(G.styling_op(rng) + ["B"]))
